@@ -167,6 +167,26 @@ class FloCheck(Check):
                                 out.violate("model-" + kind2, "implementation and reference interpreter disagree: " + kind2,
                                             "tick %s: %s (on the projection to this property's events; first overall disagreement: %s %s)\n%s\n%s"
                                             % (pi[d2][0] if d2 < len(pi) else "?", what2, kind, what, ctx, script[:3500]))
+            if d is None and not out.violations and self.relevant("store"):
+                # same events: the stores must hold the same values at the end (a wrong value that no need happened to read)
+                for path, ms in sorted(model.shares.items()):
+                    if not path.startswith(".sim."):
+                        continue
+                    sh = res.house.store.fetchShare(path)
+                    got = dict(sh.items()) if sh is not None else None
+                    want = dict(ms["fields"])
+                    if got is None:
+                        if want:
+                            out.violate("model-store", "implementation and reference interpreter disagree: final store values", "share %s missing, reference %r\n%s" % (path, want, script[:3500]))
+                            break
+                        continue
+                    keys = set(want) | set(k for k in got if k in want or got[k] is not None)
+                    if any(got.get(k) != want.get(k) for k in keys):
+                        out.violate("model-store", "implementation and reference interpreter disagree: final store values",
+                                    "share %s: implementation %r, reference %r\n%s" % (path, got, want, script[:3500]))
+                        break
+                else:
+                    out.probe("final-store-agrees")
             self.invariants(plan, res, impl, out)
         self.probes(plan, res, impl, out)
         for e in impl:
